@@ -33,10 +33,12 @@ LEVEL_TEXT = ("Coq theorems over an executable model that composes the (proved) 
               "optimiser returns a top-k set which minimises the summed criterion and commutes with relabelling under distinct criterion "
               "values; the multi-objective choice is the first argmax of ndset_wt * (declared transformation of the front); a 0/1 vector over "
               "candidate crosses (BinaryMateSelectionConfiguration) uses the marked crosses floor or ceiling of ncross/k times, a contribution "
-              "vector over candidate crosses (RealMateSelectionConfiguration) floor or ceiling of ncross*x_i/sum(x). 116 kernel expressions "
+              "vector over candidate crosses (RealMateSelectionConfiguration) floor or ceiling of ncross*x_i/sum(x); the integer decision space UsefulnessCriterionIntegerSelection builds over the candidate "
+              "crosses has, for every accepted cross design, one [0, nparent*sum(nmating)] pair per candidate cross and contains every allocation "
+              "of the design's matings to the candidate crosses. 118 kernel expressions "
               "(index / pointer formulas, size / replace / axis arguments, argument order, cross-map lookup, the setters' checks, the dispatch on "
               "nobj, score and argmax, the row of the solution and the attributes handed to the configuration in both branches of the eight "
-              "select() methods, lower bound / leaf test / range of triudix and triuix, xmapix, the slice of the sorting optimiser) are regenerated "
+              "select() methods, lower bound / leaf test / range of triudix and triuix, xmapix, the slice of the sorting optimiser, the two numbers repeated as bounds of the UC integer decision space) are regenerated "
               "from the source on every run, the configurations assembled from them are proved equal to the hand model and the property theorems "
               "are stated about the assembled programs (C07_kernel_*), so a changed expression breaks the build whatever the cases exercise. The model is "
               "evaluated inside Coq against the implementation's outputs on generated inputs with recorded scripted draws (bit-exact "
@@ -56,7 +58,7 @@ RULE = ("case = (kind in {cfg, life, xmap, select, audit}, arguments, draw scrip
         "(aliasing with decision vector / cross map); life: 2..4 of {copy, deepcopy, set_decn, in-place mutate_decn, set_shape, set_xmap, set_rng}, a sampling "
         "after each; xmap: n 0..7, k 0..4, both generators and xmapix; select: all 24 protocol classes, breeding values scaled by 2^e (e in -30..15), sessions of "
         "1..2 further select() calls on the same protocol (setters / in-place breeding values / relabelled population); audit: introspection of the anchored modules; "
-        "families EBV (4 encodings), GEBV, OCS, Random, OHV (subset- and integer-mate), UC, 3..8 taxa, 1..2 traits, ties and distinct criteria, zero / negative / "
+        "families EBV (4 encodings), GEBV, OCS, Random, OHV (subset- and integer-mate), UC (all four encodings over candidate crosses; the integer one with 1..3 crosses, scalar and per-cross nmating, its decision-space bounds compared with the model), 3..8 taxa, 1..2 traits, ties and distinct criteria, zero / negative / "
         "wrong-length nmating and nprogeny (must be refused by the constructor), nobj 1..2, weights of "
         "both signs, sorting optimiser / sorting hill climber / brute-force exact stubs, default and harness transformations of the front, "
         "a relabelled second run; non-trivial = more candidates than slots filled by one member and a non-constant criterion / vector; "
@@ -477,6 +479,8 @@ def _select_fixed():
          "u": [[1], [2], [-3], [4], [0]], "ncross": 2, "nparent": 2, "nmating": 1, "nprogeny": 3, "nobj": 1, "algo": "sorting",
          "draw": {"mode": "rand", "seed": 4}, "relabel": [5, 4, 3, 2, 1, 0], "miscout": True}
     v = lambda **kw: dict(copy.deepcopy(b), **kw)
+    uci = lambda **kw: v(**dict(dict(family="uc", enc="imate", unique=True, algo="stub", ntaxa=4, bv=[[8], [24], [16], [40]], relabel=[3, 1, 0, 2],
+                                     draw={"mode": "rand", "seed": 7}), **kw))
     one = [[-8], [-24], [-16], [40], [-1], [-32]]            # one candidate with a positive value: the exact optimum selects it alone
     # two candidates, each best for one trait; all front points tie under the zero-weight transformation and the reversed front
     # starts with the solution selecting both: fewer selected individuals (counts 0/1) than slots, whole copies of the pool
@@ -508,7 +512,13 @@ def _select_fixed():
             v(enc="binary", algo="stub", draw={"mode": "id", "seed": 1}, **two), v(enc="binary", algo="stub", draw={"mode": "rev", "seed": 1}, **two),
             v(family="random", ncross=3, nparent=2, draw=pair), v(family="random", ncross=2, nparent=1), v(family="random", ncross=1, nparent=4, ntaxa=8, bv=[[8 * i] for i in range(8)]),
             v(ncross=1, nparent=2, draw=pair), v(ncross=1, nparent=4, draw=pair), v(ncross=2, nparent=3, draw=pair), v(ncross=1, nparent=3),
-            v(family="ohv", enc="mate", unique=False), v(family="ohv", enc="mate", unique=True, nparent=3, ncross=2), v(family="uc", enc="mate", unique=True)]
+            v(family="ohv", enc="mate", unique=False), v(family="ohv", enc="mate", unique=True, nparent=3, ncross=2), v(family="uc", enc="mate", unique=True),
+            # UsefulnessCriterionIntegerSelection with one, two, three crosses, scalar and per-cross nmating (formerly C07-uc-integer-bounds-shape:
+            # every design with two or more crosses failed), one and two objectives, a session changing the number of crosses
+            uci(ncross=1), uci(ncross=2), uci(ncross=3, nmating=[2, 1, 3]), uci(ncross=2, nmating=[1, 4], nprogeny=[2, 1], miscout=False),
+            uci(ncross=3, nmating=2, ntaxa=3, bv=[[8], [16], [24]], relabel=[2, 0, 1]),
+            uci(ncross=2, nmating=[3, 1], ntrait=2, nobj=2, bv=[[8, 1], [24, 2], [16, 5], [40, 0]], u=[[1, 0], [2, 1], [-3, 2], [4, 0], [0, 1]]),
+            uci(ncross=1, session=[{"set": {"ncross": 3, "nmating": [1, 2, 1], "nprogeny": 1}}, {"set": {"ncross": 2, "nmating": 5, "nprogeny": [1, 2]}}])]
 
 def _new_decn(rng, cls, nunit, t, k=None):
     """a decision vector of class cls over nunit units (candidates, or rows of the cross map); k: required length (subset / mate)"""
@@ -929,6 +939,8 @@ def _stub_algo(enc, case):
         def __init__(self): self.ncalls = 0
         def minimize(self, prob, miscout=None, **kwargs):
             self.ncalls += 1
+            # the bounds of the decision space of the problem the protocol built (one row each)
+            self.bounds = [numpy.asarray(prob.decn_space_lower).tolist(), numpy.asarray(prob.decn_space_upper).tolist()]
             cands = _candidates(enc, prob, case)
             ev = [prob.evalfn(x) for x in cands]
             objs = [numpy.asarray(e[0], dtype=float) for e in ev]
@@ -1054,6 +1066,10 @@ def _select_once(case, perm=None, with_crit=True, stage=None, keep=None, step=No
                     tv = numpy.asarray(prot.ndset_trans(s.soln_obj, **prot.ndset_trans_kwargs), dtype=float)
                     out["tvals"] = [_hx(v) for v in tv]; out["ndset_wt"] = _hx(prot.ndset_wt)
         out["stub_calls"] = getattr(so, "ncalls", None)
+        if case["enc"] == "imate":
+            algo = prot.soalgo if case["nobj"] == 1 else prot.moalgo
+            b = getattr(algo, "bounds", None)
+            if b is not None: out["bounds"] = [[int(v) if float(v).is_integer() else _hx(float(v)) for v in numpy.ravel(r)] for r in b]
         out["post_draws"] = rng.used; rng.used = []
         # the per-candidate criterion of the protocol's own problem (what a truncation optimiser sorts)
         # (Random*Selection draws its criterion from the generator: in a later call of a session the stream has moved on, a fresh
@@ -1274,16 +1290,17 @@ def _emit_select1(case, out):
     enc = case["enc"]; nc, npar = case["ncross"], case["nparent"]
     args_ok = "proto_args_ok %s %s %s %s" % (E.nat(nc), E.nat(npar), _matpar(case["nmating"]), _matpar(case["nprogeny"]))
     ucb = None
-    if case["family"] == "uc" and enc == "imate":
-        # UsefulnessCriterionIntegerSelection.problem stacks two bounds of different lengths unless there is one cross (finding C07-uc-integer-bounds-shape)
+    if case["family"] == "uc" and enc == "imate" and "raised" not in out:
+        # UsefulnessCriterionIntegerSelection.problem: the bounds of the decision space, one entry per candidate cross, as the model
+        # computes them for this cross design (any number of crosses; repaired finding C07-uc-integer-bounds-shape)
         nx = len(list(itertools.combinations(range(case["ntaxa"]), npar) if case.get("unique", True) else itertools.combinations_with_replacement(range(case["ntaxa"]), npar)))
         nm = case["nmating"] if isinstance(case["nmating"], list) else [case["nmating"]] * nc
-        ucb = "is_none (uc_int_bounds %s %s %s %s)" % (E.nat(nc), E.nat(npar), _zl(nm), E.nat(nx))
+        b = out.get("bounds")
+        if b is None or not all(isinstance(v, int) for r in b for v in r): return "false"
+        ucb = "ozl2_eqb (uc_int_bounds %s %s %s %s) (Some (%s, %s))" % (E.nat(nc), E.nat(npar), _zl(nm), E.nat(nx), _zl(b[0]), _zl(b[1]))
     if "raised" in out:
         # the constructor refuses exactly the cross-design parameters the model refuses; other refusals are judged by the predicate
-        t = "(Bool.eqb (%s) %s)" % (args_ok, E.b(out.get("stage") != "construct"))
-        if ucb and _uc_bounds_site(out): t = "(%s && %s)" % (t, ucb)
-        return t
+        return "(Bool.eqb (%s) %s)" % (args_ok, E.b(out.get("stage") != "construct"))
     if out["shape"] != [nc, npar]: return "false"
     real = enc in REAL_LIKE
     decn = [_fh(h) for h in out["decn"]] if real else [int(v) for v in out["decn"]]
@@ -1294,7 +1311,7 @@ def _emit_select1(case, out):
     tm = _cfg_term(enc, nc, npar, decn, cdraws, out.get("order"), out.get("xmap"))
     if tm is None: return "false"
     parts = [args_ok]
-    if ucb: parts.append("negb (%s)" % ucb)
+    if ucb: parts.append(ucb)
     if real: core, side = tm; parts.append(side)
     else: core = tm
     matelike = enc in CROSS_BASED
@@ -1628,6 +1645,19 @@ def _pred_select1(case, out):
         if xmap != want: bad.append("cross map is not the lexicographic list of %s %d-tuples of candidates" % ("strictly increasing" if uniq else "non-decreasing", npar))
         if enc == "mate" and any(not (0 <= d < len(xmap)) for d in decn): bad.append("decision refers to a cross outside the map"); return bad
         if enc in ("imate", "bmate", "rmate") and len(decn) != len(xmap): bad.append("decision vector does not have one entry per candidate cross"); return bad
+    if enc == "imate":
+        # the decision space: one [lower, upper] pair per candidate cross; for the usefulness criterion the lower bound is 0 and the
+        # upper bound admits every allocation of the design's matings (a fortiori of its ncross crosses) to the candidate crosses
+        b = out.get("bounds")
+        if b is None: bad.append("the optimiser was not handed the bounds of the decision space")
+        elif len(b[0]) != len(xmap) or len(b[1]) != len(xmap):
+            bad.append("decision space bounds have %d / %d entries, the cross map has %d candidate crosses" % (len(b[0]), len(b[1]), len(xmap)))
+        elif fam == "uc":
+            tot = sum(case["nmating"]) if isinstance(case["nmating"], list) else case["nmating"] * nc
+            if any(v != 0 for v in b[0]): bad.append("lower bound of the decision space %r is not 0 everywhere" % b[0])
+            if any(not isinstance(v, int) or v < max(tot, nc) for v in b[1]):
+                bad.append("upper bound of the decision space %r excludes an allocation of the design's %d matings (%d crosses) to one candidate cross" % (b[1], tot, nc))
+            elif any(not (lo <= d <= up) for lo, d, up in zip(b[0], decn, b[1])): bad.append("chosen decision %r lies outside the decision space %r" % (decn, b))
     if enc in ("real", "integer", "binary") and len(decn) != case["ntaxa"]:
         bad.append("decision vector has %d entries, the candidate population has %d individuals" % (len(decn), case["ntaxa"])); return bad
     if enc in ("integer", "binary", "imate", "bmate") and (any(v < 0 for v in decn) or sum(decn) <= 0): return bad + ["degenerate integer decision %r" % decn]
@@ -1681,19 +1711,9 @@ def _pred_select1(case, out):
     return bad
 
 # ================================================================== findings, evidence
-UC_MSG = "uc imate select() raised ValueError: all input arrays must have the same shape"
-def _uc_bounds_site(out):
-    return out.get("raised") == "ValueError" and "numpy.stack([decn_space_lower,decn_space_upper])" in out.get("tb", "") and "UsefulnessCriterionSelection.py" in out.get("tb", "")
-
 def classify(case, out, clauses):
-    """open: C07-uc-integer-bounds-shape (UsefulnessCriterionIntegerSelection.problem cannot stack its decision-space bounds when the
-    protocol asks for two or more crosses) - matched narrowly: family uc, integer-mate encoding, every failing select() asked for
-    ncross >= 2 and raised the ValueError of that numpy.stack call.  C07-integer-share, C07-integer-mate-share, C07-zero-mating-late
-    and C07-mating-shape-late are repaired (status fixed: their witnesses are re-run on every check and must pass)"""
-    if case.get("kind") == "select" and case.get("family") == "uc" and case.get("enc") == "imate" and clauses and all(UC_MSG in c for c in clauses):
-        if "raised" in out: calls = [(case["ncross"], out)]
-        else: calls = [(cur["ncross"], o) for (cur, st), o in zip(_session_cases(case), out.get("session", [])) if "raised" in o]
-        if calls and all(n >= 2 and _uc_bounds_site(o) for n, o in calls): return "C07-uc-integer-bounds-shape"
+    """no open finding: C07-integer-share, C07-integer-mate-share, C07-zero-mating-late, C07-mating-shape-late and
+    C07-uc-integer-bounds-shape are repaired (status fixed: their witnesses are re-run on every check and must pass); nothing is excused"""
     return None
 
 def nontrivial(case, out):
